@@ -365,6 +365,7 @@ type c13Obj struct {
 	closed      int
 	owner       func() error // adapter: the net.Conn that owns the descriptor
 	ownerClosed bool
+	startRead   func() // adapter: start an AsyncRead that stays in flight (nothing is sent to it)
 }
 
 func c13Create(e *c13Env, kind string) *c13Obj {
@@ -426,6 +427,7 @@ func c13Create(e *c13Env, kind string) *c13Obj {
 		sonic.NewAsyncAdapter(e.ioc, c.(syscall.Conn), c, func(err error, x *sonic.AsyncAdapter) { ad = x })
 		o.close = ad.Close
 		o.owner = c.Close
+		o.startRead = func() { ad.AsyncRead(make([]byte, 8), func(error, int) {}) }
 	case "adapter-file":
 		// the adapted object is not a net.Conn: an *os.File (one end of a pipe), which is a syscall.Conn, an
 		// io.ReadWriter and an io.Closer that owns its descriptor just the same
